@@ -37,6 +37,7 @@ inductive Op where
   | card
   | slice
   | each (k : Nat)
+  | clone
   | bin (op : BinOp) (operand : S)
 deriving Repr, Inhabited
 
@@ -63,6 +64,7 @@ def answer (s : S) : Op → Out
   | .card => .nat s.length
   | .slice => .list s
   | .each k => .list (eachPrefix s k)
+  | .clone => .list s
   | _ => .unit
 
 /-- trace acceptor for one provider: every answer is the ideal one and the observed content after every operation
